@@ -691,7 +691,9 @@ impl<'a> Gen<'a> {
     /// g := std.<fn>(callback, table)
     fn std_stmt(&mut self, cx: &mut Ctx, d: usize) -> Vec<C> {
         // mostly small tables; sometimes long ones with many tied keys (sort stability, min/max tie-breaking)
-        let big = self.w(2);
+        // (not inside loops: an Array card leaves one stray value per element on the value stack until its function returns,
+        // so long arrays in a loop run into the 256-slot stack limit, which is a resource limit and not a semantic difference)
+        let big = self.w(2) && cx.loop_depth == 0;
         let n = if big { 21 + self.rng.below(28) } else { self.rng.below(5) };
         // mostly integers; in small tables now and then a nil (an entry whose value is nil is an entry like any other)
         let items: Vec<C> = (0..n).map(|_| if !big && self.rng.below(7) == 0 { nil() } else { int(self.rng.below(if big { 40 } else { 6 }) as i64) }).collect();
